@@ -11,3 +11,11 @@ Definition frozen_ferror_all : text := (T "965bce3477fa978f").
 Definition frozen_fadaptermod_all : text := (T "cb8aa7dab4622b86").
 Definition frozen_fwatcher_all : text := (T "e7778636322df05a").
 Definition frozen_ffrontend_all : text := (T "2cd17dd38f84f75d").
+Definition frozen_fenforcer_all : text := (T "515f526ee3e31d16").
+Definition frozen_fdefaultmodel_all : text := (T "0a6e59405dffe1bf").
+Definition frozen_ffileadapter_all : text := (T "9ac5951a3d804755").
+Definition frozen_fstringadapter_all : text := (T "c400b1757ca4ab16").
+Definition frozen_fconfig_all : text := (T "e8bfefde4d28228f").
+Definition frozen_ffunctionmap_all : text := (T "179e129a03afc4c3").
+Definition frozen_fassertion_all : text := (T "27213cdf0ef212fd").
+Definition frozen_finternalapi_all : text := (T "285ed96ab9bf48f2").
